@@ -26,6 +26,19 @@ per schedule).  Deadlock (no enabled thread, not all finished) is detected and r
 waited for; `max_steps` bounds every execution (livelock); a wall-clock watchdog exists only to
 turn a controlled thread stuck in an uncontrolled blocking call into an error instead of a hang.
 
+`DirectedChooser` replays a model behaviour: a list of (thread role, location matcher) directives,
+"run that thread until it has executed a step at the anchor"; an infeasible directive (thread
+blocked, finished, anchor not reached) ends the directed part and the default policy takes over.
+Granularity can be narrowed per scenario: `skip_funcs` (run atomically), `only_funcs` (only these
+functions of the target files have pre-emption points), `yield_lines` (functions in which only the
+listed lines are pre-emption points).  `on_step(ctl, step)` runs after every step while all threads
+are parked (safe place to sample the object under test).  Executions are deterministic for a given
+chooser (seed); a Controller object runs exactly one execution.
+
+CPython 3.12 note: per-opcode trace events are delivered only to threads whose sys.settrace call
+came after some frame requested them (interpreter-wide flag); `run()` requests them up front, and
+never from a thread that is not tracing (that segfaults 3.12.1).
+
 Limits: pre-emption granularity is the source line (plus the listed store splits), not the
 bytecode; code outside the target files runs atomically with the line that called it; only the
 primitives used by the modules under test are shimmed (Lock, RLock, Event, Thread, get_ident,
